@@ -400,6 +400,7 @@ func sinkNames(ss []sink) string {
 
 func runC09(c *Ctx) {
 	p := c.P
+	checkWrapperNotTakenForPacket(c, "R7")
 	checkOpenfilePassthrough(c, "R2")
 	pos := func(in ssa.Instruction) string { return p.Pos(in.Pos()) }
 	handle := p.Func("handlePacket")
